@@ -35,9 +35,11 @@ pub fn world(_tier: Tier, world_no: u64, mut tape: Tape) -> WorldReport {
             world: world_no,
             ..Default::default()
         };
-        if let Err(p) = guarded(|| inner(world_no, tape, &mut rep)) {
+        let mut tape = tape;
+        if let Err(p) = guarded(|| inner(world_no, &mut tape, &mut rep)) {
             rep.harness_error = Some(format!("harness panic: {} at {}:{}", p.message, p.file, p.line));
         }
+        rep.tape = tape.data.clone();
         rep
     })
 }
@@ -155,8 +157,8 @@ fn check_idempotent(st: &State, pp: &crate::rsim::PPCfg, rep: &mut WorldReport, 
     }
 }
 
-fn inner(world_no: u64, mut t: Tape, rep: &mut WorldReport) {
-    let pp = draw_pparams(&mut t, false);
+fn inner(world_no: u64, t: &mut Tape, rep: &mut WorldReport) {
+    let pp = draw_pparams(t, false);
     // ---- template: an example program or a generated one
     let examples = crate::p_entropy::example_sources();
     let use_example = !examples.is_empty() && t.chance(1, 5);
@@ -167,13 +169,14 @@ fn inner(world_no: u64, mut t: Tape, rep: &mut WorldReport) {
         let profile = *t.pick(&[Profile::Rich, Profile::Fee, Profile::Selection, Profile::Boundary]);
         let rich = t.chance(1, 3);
         let p = gen_program(
-            &mut t,
+            t,
             &GenCfg {
                 profile,
                 mainnet: false,
                 max_txs: 2,
                 force_min_utxo: None,
                 rich_directives: rich,
+                optional_bias: false,
             },
         );
         (format!("generated-{world_no}"), p.source(), Some(p))
@@ -199,10 +202,15 @@ fn inner(world_no: u64, mut t: Tape, rep: &mut WorldReport) {
     if let Some(p) = &program {
         let spec = p.txs.iter().find(|x| x.name == txname).unwrap();
         let dist = if t.chance(1, 6) { ArgDist::Boundary } else { ArgDist::Small };
-        let plan = gen_args(&mut t, p, spec, &SimChain::default(), dist);
+        let plan = gen_args(t, p, spec, &SimChain::default(), dist);
         known = plan.args;
     }
-    let args = type_directed_args(&mut t, &params, &known);
+    // every argument the program's signature names (reported by find_params or not), plus
+    // type-directed values for whatever else the TIR reports (examples)
+    let mut args = type_directed_args(t, &params, &known);
+    for (k, v) in &known {
+        args.entry(k.clone()).or_insert_with(|| v.clone());
+    }
     let nparts = 1 + t.index(3);
     let mut arg_parts: Vec<ArgMap> = vec![ArgMap::new(); nparts];
     for (k, v) in &args {
@@ -226,7 +234,11 @@ fn inner(world_no: u64, mut t: Tape, rep: &mut WorldReport) {
                 value: v,
                 datum: Some(tir::Expression::Struct(tir::StructExpr {
                     constructor: 0,
-                    fields: vec![tir::Expression::Number(t.draw(50) as i128), tir::Expression::Bytes(vec![0xAB, 0xCD])],
+                    fields: vec![
+                        tir::Expression::Number(t.draw(50) as i128),
+                        tir::Expression::Bytes(vec![0xAB, 0xCD]),
+                        tir::Expression::List(vec![tir::Expression::Number(10), tir::Expression::Number(20), tir::Expression::Number(30)]),
+                    ],
                 })),
             };
             set.insert(u.to_utxo(&(vec![0x40 + qi as u8; 32], j as u32)));
@@ -376,5 +388,4 @@ fn inner(world_no: u64, mut t: Tape, rep: &mut WorldReport) {
         "reference_outcome": match &reference { Ok(_) => "Ok".to_string(), Err(StepErr::Err(e)) => format!("Err({})", e.chars().take(120).collect::<String>()), Err(StepErr::Panic(p)) => format!("Panic({})", p.message) },
         "schedules": shown,
     }));
-    rep.tape = t.data.clone();
 }
